@@ -84,6 +84,10 @@ pub struct FindScenario {
     /// the process environment of the run (see `crate::ambient`)
     #[serde(default)]
     pub ambient: crate::ambient::Ambient,
+    /// find's working directory is this directory of the tree instead of the directory the
+    /// tree stands in (the command line's paths are then relative to it)
+    #[serde(default)]
+    pub cwd_sub: Option<String>,
 }
 
 /// Where the list of starting points is written (relative to find's working directory).
@@ -108,6 +112,7 @@ impl FindScenario {
             files0_empty_after: None,
             files0_no_final_nul: false,
             ambient: Default::default(),
+            cwd_sub: None,
         }
     }
 
@@ -366,9 +371,18 @@ pub fn run_find_prebuilt(sc: &FindScenario, ctx: &mut Ctx, root: PathBuf) -> Fin
     if let Some(list) = sc.starts_file_content() {
         let _ = fs::write(root.join(STARTS_FILE), list);
     }
+    let cwd = match &sc.cwd_sub {
+        Some(sub) => root.join(sub),
+        None => root.clone(),
+    };
+    if sc.cwd_sub.is_some() {
+        let _ = std::env::set_current_dir(&cwd);
+    }
     let log: SharedLog = Rc::new(RefCell::new(Log::default()));
     let mstate = Rc::new(RefCell::new(MutState {
-        root: root.clone(),
+        // (inside the tree the mutator uses the same relative names as find does: the working
+        // directory may be removed during the run, and absolute paths through it then fail)
+        root: if sc.cwd_sub.is_some() { PathBuf::from(".") } else { cwd.clone() },
         pending: sc.mutations.clone(),
         scanned: 0,
         records: 0,
